@@ -211,7 +211,17 @@ def gen_mats(rng, n, kind, ties):
             if i == 0 and rng.chance(0.3):
                 mats.append({"eps": e, "mu": mu})       # an isotropic member of a diagonal set
             else:
-                mats.append({"eps": [e, round(rng.uniform(1.0, 12.0), 3), round(rng.uniform(1.0, 12.0), 3)], "mu": mu})
+                y, z = round(rng.uniform(1.0, 12.0), 3), round(rng.uniform(1.0, 12.0), 3)
+                # uniaxial / partially degenerate tensors (seed C19h: an isotropy test that compares only two of the
+                # three diagonal entries sends a uniaxial set down the isotropic branch)
+                c = rng.randint(0, 9)
+                if c < 2 and z != e:
+                    y = e                                   # eps_x == eps_y != eps_z
+                elif c == 2 and y != e:
+                    z = y                                   # eps_y == eps_z != eps_x
+                elif c == 3 and y != e:
+                    z = e                                   # eps_x == eps_z != eps_y
+                mats.append({"eps": [e, y, z], "mu": mu})
         else:
             o = [round(rng.uniform(-0.3, 0.3), 3) for _ in range(3)]
             d = [e, round(rng.uniform(1.0, 12.0), 3), round(rng.uniform(1.0, 12.0), 3)]
@@ -326,6 +336,26 @@ def run(ctx):
             vals = [float(np.float32(v)) for v in vals]
         cases.append({"mats": mats, "branch": branch, "shape": list(shape), "vals": vals, "dtype": dtype,
                       "jit": i % 5 == 1, "grad": i % 3 != 2, "_mode": mode, "_flags": sorted(flags), "_ties": ties})
+    # forced uniaxial sets (seed C19h): every anisotropic member has eps_x == eps_y != eps_z (or another equal pair), so a
+    # set-level "all isotropic?" test that looks at two diagonal entries only takes the wrong branch for the whole set
+    for k in range(ctx.scale(6, 30)):
+        n = 2 + (k % 3)
+        mats = []
+        for i in range(n):
+            e, z = round(ctx.rng.uniform(1.0, 12.0), 3), round(ctx.rng.uniform(1.0, 12.0), 3)
+            if z == e:
+                z = e + 1.0
+            if i == 0 and k % 2 == 0:
+                mats.append({"eps": e, "mu": 1.0})
+            else:
+                mats.append({"eps": [[e, e, z], [e, z, z], [e, z, e]][(k // 2) % 3 if k >= 4 else 0], "mu": 1.0})
+        mats = ctx.rng.shuffle(mats)
+        mode = ["single", "lastn", "free"][k % 3]
+        shape = gen_shape(ctx.rng, n, mode)
+        count = int(np.prod(shape)) if shape else 1
+        vals, flags = gen_vals(ctx.rng, mats, "inv", max(count, 1))
+        cases.append({"mats": mats, "branch": "inv", "shape": list(shape), "vals": vals[:max(count, 1)], "dtype": "float64",
+                      "jit": False, "grad": k % 2 == 0, "_mode": mode, "_flags": sorted(flags), "_ties": False})
     # fixed corner cases (the as-found witnesses of FdtdxProps/C19.lean and the pinned unit test's shape)
     cases.append({"mats": [{"eps": 1.0}, {"eps": 2.0}], "branch": "inv", "shape": [2], "vals": [0.1, 0.9], "_mode": "lastn", "_flags": [], "_ties": False})
     cases.append({"mats": [{"eps": 1.0}, {"eps": 2.0}], "branch": "inv", "shape": [3, 1], "vals": [0.1, 0.9, 0.6], "_mode": "single", "_flags": [], "_ties": False})
